@@ -35,27 +35,34 @@ ID = "C17"
 LEVEL = "proof"
 ENGINES = ["lean-model", "purediff", "kopfsim"]
 LEVEL_TEXT = (
-    "Lean theorems for all event lists / all label interleavings: no KeyError inside the index (run_total), "
-    "forward/reverse consistency and no empty collections as invariants, index = groupBy(documented reference) "
-    "up to Python equality (mirror_upto_pyeq; exact under a lawful == as mirror_partial; the exact statement is "
-    "refuted for Python's == by mirror_witness = finding F1), the keep/remove table, and gate safety for every "
-    "interleaving of one spawn batch (gate_safe, pass_safe) with three broken variants refuted. Tied to the code by "
-    "differential runs of the real process_resource_event/indexers (D) and by trace acceptance of real "
-    "watcher/worker/ToggleSet start-ups under virtual time (A).")
+    "Lean theorems for all event lists / all label interleavings. Index: no KeyError inside the index (run_total), "
+    "forward/reverse consistency, no empty collections and key uniqueness of all three dicts as invariants, "
+    "index = groupBy(documented reference) up to Python equality (mirror_upto_pyeq; exact under a lawful == as "
+    "mirror_partial; the exact statement is refuted for Python's == by mirror_witness = finding F1), the keep/remove "
+    "table incl. the retries=/timeout= budget. Gate: safety for every interleaving with any number of "
+    "spawn_missing_watchers batches (gate_safe for the start-up batch, pass_safe/detach_safe for every kind spawned "
+    "so far), possibility of opening from every reachable state (gate_can_open: no deadlock; it assumes each started "
+    "index_resource can return — finding F3 is a real way it does not), three broken variants refuted. Tied to the "
+    "code by differential runs of the real process_resource_event/indexers (D) and by trace acceptance of real "
+    "watcher/worker/ToggleSet start-ups incl. a second batch under virtual time (A). The retry/exclusion half of the "
+    "Lean reference shares exhausted/lookahead/awake with the model (definitional there); it is checked independently "
+    "only by the Python oracle.")
 TIE = ("D: real process_resource_event + OperatorIndexers vs Lean model after every event (views in dict order, "
-       "retry memory); A: real spawn_missing_watchers/watcher/worker/ToggleSet traces accepted by the Lean LTS")
+       "retry memory incl. started); A: real spawn_missing_watchers (1-2 batches)/watcher/worker/ToggleSet traces "
+       "accepted by the Lean LTS")
 THEOREMS = [
     ("Kopf.Props.C17", "Kopf.C17.run_total"),
     ("Kopf.Props.C17", "Kopf.C17.fwd_rev_consistent"),
     ("Kopf.Props.C17", "Kopf.C17.no_empty_collections"),
+    ("Kopf.Props.C17", "Kopf.C17.keys_unique"),
     ("Kopf.Props.C17", "Kopf.C17.mirror_upto_pyeq"),
     ("Kopf.Props.C17", "Kopf.C17.mirror_partial"),
     ("Kopf.Props.C17", "Kopf.C17.mirror_witness"),
     ("Kopf.Props.C17", "Kopf.C17.mirror_exclusions"),
-    ("Kopf.Props.C17", "Kopf.C17.others_untouched"),
     ("Kopf.Props.C17", "Kopf.C17.deleted_discards"),
     ("Kopf.Props.C17", "Kopf.C17.mismatch_discards"),
     ("Kopf.Props.C17", "Kopf.C17.excluded_stays_out"),
+    ("Kopf.Props.C17", "Kopf.C17.exhausted_discards"),
     ("Kopf.Props.C17", "Kopf.C17.none_keeps"),
     ("Kopf.Props.C17", "Kopf.C17.ignored_error_keeps"),
     ("Kopf.Props.C17", "Kopf.C17.error_discards"),
@@ -65,27 +72,37 @@ THEOREMS = [
     ("Kopf.Props.C17", "Kopf.C17.Gate.pass_safe"),
     ("Kopf.Props.C17", "Kopf.C17.Gate.detach_safe"),
     ("Kopf.Props.C17", "Kopf.C17.Gate.ungated_only_after_ready"),
+    ("Kopf.Props.C17", "Kopf.C17.Gate.gate_can_open"),
     ("Kopf.Props.C17", "Kopf.C17.Gate.noBlocker_witness"),
     ("Kopf.Props.C17", "Kopf.C17.Gate.noKindToggle_witness"),
     ("Kopf.Props.C17", "Kopf.C17.Gate.dropBeforeIndex_witness"),
 ]
-RULE = ("index: 1-3 @kopf.index handlers (resource x label filter x errors mode x retries x backoff) over 1-3 kinds, "
-        "1-4 objects incl. delete-and-recreate, 1-14 events with times placed on/around retry deadlines; per event and "
-        "handler a scripted result (dict with 0-2 keys from a colliding alphabet incl. None, scalar incl. falsy and "
-        "bool/int twins, None, TemporaryError(delay), PermanentError, arbitrary exception); a case is distinct by its "
-        "sequence of (event type, per-handler rule applied) and non-trivial when it hits a non-set rule, a key collision "
-        "or a re-keying. gate: 2-3 indexed kinds (+ plain), 0-3 listed objects each, staggered dyadic delays with ties, "
-        "slow index functions, re-listing, suspended make_toggle, short idle timeouts; distinct by the label sequence.")
+RULE = ("index: 1-3 @kopf.index handlers (resource x label filter x errors mode x retries x backoff x timeout) over 1-3 "
+        "kinds, 1-4 objects incl. delete-and-recreate, 1-14 events with times placed on/around retry and timeout "
+        "deadlines; per event and handler a scripted result (dict with 0-2 keys from a colliding alphabet incl. None, "
+        "scalar incl. falsy and bool/int twins, None, TemporaryError(delay), PermanentError, arbitrary exception); a case "
+        "is distinct by its sequence of (event type, per-handler rule applied) and non-trivial when it hits a non-set "
+        "rule, a key collision or a re-keying. gate: 2-3 indexed kinds (+ plain), optionally a kind discovered later "
+        "(second spawn_missing_watchers call), 0-3 listed objects each, staggered dyadic delays with ties, slow index "
+        "functions, re-listing, suspended make_toggle (per kind and per object), short idle timeouts; distinct by the "
+        "label sequence.")
 TRUSTED = [
     "abstraction of results to script kinds (isinstance Mapping / None / exception class) and of bodies to (kind, ns/name/uid, label)",
     "label instrumentation: ToggleSet subclass + module-attribute wrappers of queueing.watcher/worker, indexing.index_resource, "
     "the processor and a scripted watching.infinite_watch (no source hooks)",
     "index values are JSON data without floats; object uids are unique across kinds (as in Kubernetes)",
+    "events are modelled one after another: OperatorIndexers.replace/discard are synchronous and touch only the event's own "
+    "object key (Lemmas others_untouched), so concurrent workers of different objects commute on the indices",
 ]
 ASSUMPTIONS = [
-    "timeout= of index handlers is not modelled (it only turns a temporary error into a permanent one; both remove the values)",
+    "timeout= and delays are whole seconds of the loop clock, loop time does not run backwards",
     "handler ids are distinct; filters other than one label filter are C15's subject",
-    "one spawn_missing_watchers batch (the start-up); kinds discovered later do not re-close the gate for detached watchers",
+    "the exclusion/retry table of the Lean reference (awake, exhausted, lookahead) is shared with the model: mirror_* are "
+    "decomposition theorems for the index bookkeeping and definitional for that table; a misreading of awakened/look-ahead "
+    "would be caught by the D tie (real memory incl. retries/delayed/failure/started) and by the Python oracle only",
+    "gate: a watcher that died and is respawned under the same kind (kopf 9ef1bcb) is not modelled; gate_can_open is a "
+    "possibility statement (no fairness), it assumes a started index_resource can return and a listing can finish "
+    "(C17-F3: a raising/throttled indexing cycle leaves the toggle and the gate never opens)",
     "daemons/timers/change handlers are behind the same single wait_for(True) as @kopf.on.event handlers, which are what the gate runs observe",
 ]
 
@@ -93,6 +110,7 @@ KINDS = ["kexa", "kexb", "kexc"]
 LATE_KIND = "kexd"      # a kind discovered after the start-up (second spawn_missing_watchers batch)
 GROUP, VERSION = "kopf.dev", "v1"
 F1_SIG = {"site": "Store._replace", "shape": "a new value that == the stored one (True/1/0/False) is not stored"}
+F3_SIG = {"site": "process_resource_event", "shape": "an exception before the per-object toggle is dropped leaves the gate closed for everybody"}
 F2_SIG = {"site": "OperatorIndexer.replace", "shape": "a non-dict Mapping result is unpacked by key (docs: strictly dict)"}
 
 
@@ -157,6 +175,7 @@ def gen_index_case(rng: random.Random) -> dict:
             "errors": rng.choice([None, None, "ignored", "temporary", "temporary", "permanent"]),
             "retries": rng.choice([None, None, None, 0, 1, 2, 2, 3]),
             "backoff": rng.choice([None, None, 0, 1, 3]),
+            "timeout": rng.choice([None, None, None, None, 0, 2, 4, 10]),
         })
     bk = rng.choice([60, 60, 2])
     nobj = rng.choice([1, 2, 2, 3, 4])
@@ -187,6 +206,8 @@ def gen_index_case(rng: random.Random) -> dict:
                 deadlines.append(t + s[1])
             if s[0] == "other" and ix["errors"] == "temporary":
                 deadlines.append(t + (ix["backoff"] if ix["backoff"] is not None else bk))
+            if ix["timeout"] and s[0] in ("temp", "other"):
+                deadlines.append(t + ix["timeout"])
         events.append({"t": t, "res": o["res"], "name": o["name"], "ns": o["ns"], "uid": o["uid"],
                        "type": typ, "label": rng.choice([None, "a", "a", "a", "b"]), "script": script})
         if typ == "DELETED":
@@ -264,7 +285,8 @@ async def run_index_case(case: dict) -> dict:
     for ix in case["indexers"]:
         kopf.index(GROUP, VERSION, ix["res"], id=ix["id"], param=ix["id"], registry=registry,
                    labels={"grp": ix["want"]} if ix["want"] is not None else None,
-                   errors=modes[ix["errors"]], retries=ix["retries"], backoff=ix["backoff"])(fn)
+                   errors=modes[ix["errors"]], retries=ix["retries"], backoff=ix["backoff"],
+                   timeout=ix.get("timeout"))(fn)
     settings = configuration.OperatorSettings()
     settings.posting.enabled = False
     settings.execution.default_backoff = case["default_backoff"]
@@ -310,7 +332,8 @@ async def run_index_case(case: dict) -> dict:
             ent = {}
             for hid, hs in state._states.items():
                 delayed = None if hs.delayed is None else int(round((hs.delayed - hs.basetime).total_seconds()))
-                ent[str(hid)] = [hs.retries, delayed, bool(hs.failure)]
+                started = int(round((hs.started - hs.basetime).total_seconds()))
+                ent[str(hid)] = [hs.retries, delayed, bool(hs.failure), started]
             if ent:
                 mem[uid2key.get(uid, uid)] = ent
         snaps.append({"ix": view, "mem": mem})
@@ -326,6 +349,7 @@ def oracle_index(case: dict, obs: dict) -> list[tuple[str, dict, dict]]:
     vals: dict[tuple[str, str], dict] = {}       # (index, object) -> {key: value}: the latest results
     excl: dict[tuple[str, str], Any] = {}        # (index, object) -> ("until", t) | "forever"
     fails_in_row: dict[tuple[str, str], int] = {}
+    first_fail: dict[tuple[str, str], int] = {}  # (index, object) -> time of the first failure of the running series
     indexed_kinds = {ix["res"] for ix in case["indexers"]}
     for n, e in enumerate(case["events"]):
         o = objkey(e)
@@ -338,6 +362,7 @@ def oracle_index(case: dict, obs: dict) -> list[tuple[str, dict, dict]]:
                 vals.pop(p, None)               # "deleted …: all associated values are removed"
                 excl.pop(p, None)
                 fails_in_row.pop(p, None)
+                first_fail.pop(p, None)
                 continue
             if ix["want"] is not None and e["label"] != ix["want"]:
                 vals.pop(p, None)               # "stops matching the filters: … removed"
@@ -350,21 +375,25 @@ def oracle_index(case: dict, obs: dict) -> list[tuple[str, dict, dict]]:
                 vals.pop(p, None)               # the retry limit is used up (incl. retries=0): permanent
                 excl[p] = "forever"
                 continue
+            if ix.get("timeout") is not None and e["t"] - first_fail.get(p, e["t"]) >= ix["timeout"]:
+                vals.pop(p, None)               # "timeout= … the overall duration from the first failure": permanent
+                excl[p] = "forever"
+                continue
             expect_calls.append(iid)
             s = e["script"][iid]
             kind = s[0]
             mode = ix["errors"] or "ignored"    # "errors=IGNORED (the default)"
             if kind == "dict":
                 vals[p] = {canon(k): (k, v) for k, v in s[1]}
-                excl.pop(p, None); fails_in_row.pop(p, None)
+                excl.pop(p, None); fails_in_row.pop(p, None); first_fail.pop(p, None)
             elif kind == "memo":                # "strictly dict — not … even a subclass of dict, such as kopf.Memo"
                 vals[p] = {canon(None): (None, {str(k): v for k, v in s[1]})}
-                excl.pop(p, None); fails_in_row.pop(p, None)
+                excl.pop(p, None); fails_in_row.pop(p, None); first_fail.pop(p, None)
             elif kind == "scalar":              # "the key is assumed to be None"
                 vals[p] = {canon(None): (None, s[1])}
-                excl.pop(p, None); fails_in_row.pop(p, None)
+                excl.pop(p, None); fails_in_row.pop(p, None); first_fail.pop(p, None)
             elif kind == "none" or (kind == "other" and mode == "ignored"):
-                excl.pop(p, None); fails_in_row.pop(p, None)   # "existing values … are preserved as-is"
+                excl.pop(p, None); fails_in_row.pop(p, None); first_fail.pop(p, None)   # "existing values … are preserved as-is"
             elif kind == "perm" or (kind == "other" and mode == "permanent"):
                 vals.pop(p, None)
                 excl[p] = "forever"
@@ -372,6 +401,7 @@ def oracle_index(case: dict, obs: dict) -> list[tuple[str, dict, dict]]:
                 vals.pop(p, None)
                 delay = s[1] if kind == "temp" else (ix["backoff"] if ix["backoff"] is not None else case["default_backoff"])
                 fails_in_row[p] = fails_in_row.get(p, 0) + 1
+                first_fail.setdefault(p, e["t"])
                 if ix["retries"] is not None and fails_in_row[p] >= ix["retries"]:
                     excl[p] = "forever"         # "retries= … until the resource is marked as permanently excluded"
                 elif delay:
@@ -771,7 +801,8 @@ async def run_gate_case(case: dict) -> dict:
         tasks = list(ensemble.watcher_tasks.values())
         horizon = 2.0 + sum(i["delay"] for its in case["streams"].values() for i in its) \
             + sum(case["index_delay"].values()) + sum(case["toggle_delay"]) \
-            + 12 * (case.get("handler_delay") or 0) + 2 * case["idle_timeout"] + 12 * (case.get("obj_toggle_delay") or 0)
+            + 12 * (case.get("handler_delay") or 0) + 2 * case["idle_timeout"] + 12 * (case.get("obj_toggle_delay") or 0) \
+            + (late["delay"] if late else 0)
         await asyncio.sleep(horizon)
         crashed = [repr(t.exception()) for t in tasks if t.done() and not t.cancelled() and t.exception() is not None]
     finally:
@@ -823,8 +854,11 @@ def oracle_gate(case: dict, obs: dict) -> list[tuple[str, dict, dict]]:
     if obs["crashed"]:
         fails.append((f"watcher task crashed: {obs['crashed'][:2]}", {}, {"site": "queueing.watcher", "shape": "crash"}))
     if delivered and not started:
+        sig = {"site": "operator_indexed gate", "shape": "never opens"}
+        if case.get("filter_raises") and obs["final"]["n"] == len(case["filter_raises"]):
+            sig = F3_SIG         # exactly the toggles of the objects whose indexing cycle raised are left
         fails.append(("events were delivered, every listing finished, but no handler ever started (the gate never opened)",
-                      {"final": obs["final"]}, {"site": "operator_indexed gate", "shape": "never opens"}))
+                      {"final": obs["final"]}, sig))
     return fails
 
 
@@ -952,6 +986,7 @@ def summarise_gate(results: list[dict], source: str, sm: dict | None = None, wit
         _count(sm, "gate.opened", handled > 0)
         _count(sm, "gate.arrival_while_blocker_held", under_blocker)
         _count(sm, "gate.closed_again_after_opening", reclosed)
+        _count(sm, "gate.late_batch", bool(case.get("late")))
         _count(sm, "gate.source", source)
         sm["traces"] += 1
         for what, detail, sig in r["fails"]:
